@@ -2,7 +2,7 @@
    bool, option, unit, list, prod, sumbool, sumor mapped to the OCaml types; andb/orb inlined.
    nat, positive, N, Z are extracted as the Coq inductives. *)
 From Coq Require Import Extraction ExtrOcamlBasic.
-From N2 Require Import Model.All Model.Build Model.Fancy Model.Task Model.Dumb Model.Cli Model.Fs.
+From N2 Require Import Model.All Model.Build Model.Fancy Model.Task Model.Dumb Model.Cli Model.Fs Model.Explain Model.Terminal.
 Extraction "n2model.ml" canon_impl canon sem ends_dirlike normal_form uses_only f17_class
   depfile_parse depfile_parse_pinned depfile_deps depfile_deps_pinned format_parse_error
   truncate task_message task_message_pinned progress_bar mkCounts utf8_ok
@@ -11,4 +11,4 @@ Extraction "n2model.ml" canon_impl canon sem ends_dirlike normal_form uses_only 
   replay load_state hash_build siphash13 manifest_stream
   db_open write_build loaded_for signature
   run_phase run_phase_main select_targets bs_new want_targets accepts first_rejected get_state
-  build_tape f_run0 lossy utf8_strict run_task d_run0 printed parse_args summary fs_run fs_listing.
+  build_tape f_run0 lossy utf8_strict run_task d_run0 printed parse_args summary fs_run fs_listing explain_trace get_cols max_cols.
